@@ -69,7 +69,9 @@ def showHdr (loose : Bool) (h : Hdr) : String := s!"{showBytes false (some h.key
 
 def showRec (loose : Bool) (r : Rec) : String :=
   let hs := if r.headers.isEmpty then "-" else ";".intercalate (r.headers.map (showHdr loose))
-  s!"o{r.offset},t{r.ts},k{showBytes loose r.key},v{showBytes loose r.value},h{hs}"
+  -- a negative timestamp is NO_TIMESTAMP (-1: written by pre-0.10 producers, kept by up-conversion): the harness prints the
+  -- zero time.Time as 0, and that is what "no timestamp" must be delivered as
+  s!"o{r.offset},t{if r.ts < 0 then 0 else r.ts},k{showBytes loose r.key},v{showBytes loose r.value},h{hs}"
 
 def showRecs (loose : Bool) (rs : List Rec) : String :=
   if rs.isEmpty then "none" else "|".intercalate (rs.map (showRec loose))
